@@ -344,6 +344,9 @@ class CookieJar(AbstractCookieJar):
                 cookie = tmp[name]
 
             domain = cookie["domain"]
+            if domain != domain.lower():
+                # Domain names are compared in lower case (RFC 6265 5.2.3)
+                domain = cookie["domain"] = domain.lower()
 
             # ignore domains with trailing dots
             if domain and domain[-1] == ".":
